@@ -17,6 +17,7 @@ re-created by value with private globals and their log would go nowhere).
 from __future__ import annotations
 
 import logging
+import os
 
 from bqskit.compiler.basepass import BasePass
 from bqskit.runtime import get_runtime
@@ -57,9 +58,58 @@ def fid(path, name):
     return FUTS[k]
 
 
+# ---- real-process mode: every process appends its events to one file, stamped under an exclusive file lock, so
+# the stamps form a total order; "cause" events are logged before the message that carries them is sent and
+# "effect" events after it was received, hence the stamp order is consistent with causality.
+TRACE_DIR = os.environ.get('VERIF_RT_TRACE') or None
+_loaded = False
+
+
+def _load_real():
+    """Worker processes of a real runtime learn the programs and the static id tables from the trace directory."""
+    global _loaded
+    if _loaded or not TRACE_DIR:
+        return
+    _loaded = True
+    import json
+    with open(os.path.join(TRACE_DIR, 'static.json')) as f:
+        st = json.load(f)
+    PROGS.clear()
+    PROGS.update({k: [tuple(i) for i in v] for k, v in st['progs'].items()})
+    for k, v in st['ids']:
+        IDS[_untup(k)] = v
+    for k, v in st['parent']:
+        PARENT[k] = v
+    for k, v in st['tcomp']:
+        TCOMP[k] = v
+    for (pth, name), v in st['futs']:
+        FUTS[(_untup(pth), name)] = v
+
+
+def _untup(x):
+    return tuple(_untup(i) for i in x) if isinstance(x, list) else x
+
+
+def dump_static(trace_dir):
+    import json
+    with open(os.path.join(trace_dir, 'static.json'), 'w') as f:
+        json.dump({'progs': {k: [list(i) for i in v] for k, v in PROGS.items()},
+                   'ids': [[k, v] for k, v in IDS.items()], 'parent': [[k, v] for k, v in PARENT.items()],
+                   'tcomp': [[k, v] for k, v in TCOMP.items()], 'futs': [[[k[0], k[1]], v] for k, v in FUTS.items()]}, f)
+
+
 def ev(e, **kw):
     d = {'e': e}
     d.update(kw)
+    if TRACE_DIR:
+        import fcntl
+        import json
+        with open(os.path.join(TRACE_DIR, 'events.ndjson'), 'a') as f:
+            fcntl.flock(f, fcntl.LOCK_EX)
+            f.write(json.dumps(d) + '\n')
+            f.flush()
+            fcntl.flock(f, fcntl.LOCK_UN)
+        return
     LOG.append(d)
 
 
@@ -81,6 +131,8 @@ def preregister(cid, fn):
 
 
 async def body(fn, path):
+    _load_real()
+    path = _untup(path) if isinstance(path, list) else path
     me = tid(path)
     ev('TaskStart', t=me)
     env = {}
